@@ -177,9 +177,8 @@ def run(prog: Program, rep, thorough: bool) -> None:
     ok_fw = False
     try:
         evf.call_value(tr, [SymObj('shot'), rq, sq, SymObj('extra'), S('tstep')], self_val=selff, st=stf)
-        get_in = prog.find_method(rq.cls, 'get_in')
-        r_ft = evf.call_value(get_in, [C.enum_val(prog, 'Foot')], self_val=rq, st=stf)[0]
-        s_ft = evf.call_value(get_in, [C.enum_val(prog, 'Foot')], self_val=sq, st=stf)[0]
+        r_ft = Scalar(C.read_raw_in(evf, prog, 'Distance', 'Rraw', 'Foot'))
+        s_ft = Scalar(C.read_raw_in(evf, prog, 'Distance', 'Sraw', 'Foot'))
         if len(got['init']) >= 1 and got['integrate']:
             ok_fw = all(len(a_) == 1 and isinstance(a_[0], SymObj) and a_[0].path == 'shot' and not k_
                         for a_, k_ in got['init'])
@@ -191,8 +190,8 @@ def run(prog: Program, rep, thorough: bool) -> None:
                     and isinstance(ia.get(F.func.positional[3]), Scalar) and ia[F.func.positional[3]].rf.equals(s_ft.rf)
                 ts_ = ia.get(F.func.positional[5]) if len(F.func.positional) > 5 else None
                 ok_fw = ok_fw and (ts_ is None or (isinstance(ts_, Scalar) and ts_.rf.equals(A.sym('tstep'))))
-    except Undecided:
-        ok_fw = False
+    except Undecided as exc:
+        raise AnalysisError(f'TrajectoryCalc.trajectory: {exc}') from exc
     if ok_fw:
         rep.ok('C11.R1', tr.where, 'trajectory(): _init_trajectory(shot) sees the shot only; range and step forwarded in feet')
     else:
